@@ -20,7 +20,7 @@ Init == /\ ct \in Range(CTypes) /\ depth \in 0..MaxDepth /\ name \in DOMAIN Name
         /\ place \in {"inside", "outside", "outside_prefix", "outside_case"}
         \* the directories given as absolute or relative paths; rel_first: the load directory B is relative and equal to the
         \* first component of the stored relative path (so B.x starts with the same component twice)
-        /\ akind \in {"abs", "rel"} /\ bkind \in {"abs", "rel", "rel_first"}
+        /\ akind \in {"abs", "rel"} /\ bkind \in {"abs", "rel", "rel_first", "root"}        \* root: the load directory is the file-system root "/"
         \* without a directory the recordings may still be given by RELATIVE paths (akind = "rel"): they pass through unchanged
         /\ (audio = "none" => bkind = "abs" /\ place = "inside")
         /\ (place # "inside" => bkind = "abs")
@@ -30,7 +30,7 @@ Init == /\ ct \in Range(CTypes) /\ depth \in 0..MaxDepth /\ name \in DOMAIN Name
         /\ call \in {"default", "format_aoef", "format_none", "typed"}
         /\ LET ix(S, x) == CHOOSE i \in 1..Len(S) : S[i] = x
                n == name + 3 * depth + 5 * ix(<<"none", "str", "path", "fspath">>, audio) + 7 * ix(<<"default", "format_aoef", "format_none", "typed">>, call)
-                    + 11 * ix(<<"inside", "outside", "outside_prefix", "outside_case">>, place) + 13 * ix(<<"abs", "rel", "rel_first">>, bkind) + ix(CTypes, ct)
+                    + 11 * ix(<<"inside", "outside", "outside_prefix", "outside_case">>, place) + 13 * ix(<<"abs", "rel", "rel_first", "root">>, bkind) + ix(CTypes, ct)
            IN  n % Stride = 0
         \* dots: which special directory lies below the audio directory: "dotdot" = a ".." component, "dotdir" = a first component
         \* that begins with a dot (.cache), "tilde" = a first component that begins with a tilde (~user) -- all legal, all stored
